@@ -1115,8 +1115,10 @@ def tree_path_to_fs_path(
       tree_encoding: Encoding used for tree paths (default: utf-8)
     Returns: Filesystem path as bytes (with os.sep, filesystem encoding)
     """
-    # Decode from tree encoding
-    path_str = tree_path.decode(tree_encoding)
+    # Decode from tree encoding; bytes that are not valid in that encoding
+    # (file names are arbitrary bytes on POSIX) survive the round trip through
+    # os.fsencode() below as surrogate escapes instead of raising
+    path_str = tree_path.decode(tree_encoding, "surrogateescape")
 
     # Replace / with OS separator if needed
     if os.sep != "/":
@@ -2019,7 +2021,7 @@ def add(
         for p in paths:
             # Handle bytes paths by decoding them
             if isinstance(p, bytes):
-                p = p.decode("utf-8")
+                p = os.fsdecode(p)
             path = Path(p)
             if not path.is_absolute():
                 # Make relative paths relative to the repo directory
@@ -2075,7 +2077,7 @@ def add(
                 # Also add unstaged (modified) files within this directory
                 for unstaged_path in all_unstaged_paths:
                     if isinstance(unstaged_path, bytes):
-                        unstaged_path_str = unstaged_path.decode("utf-8")
+                        unstaged_path_str = os.fsdecode(unstaged_path)
                     else:
                         unstaged_path_str = unstaged_path
 
@@ -5860,7 +5862,7 @@ def _check_uncommitted_changes(
             else:
                 # File exists in target tree - would overwrite local changes
                 raise CheckoutError(
-                    f"Your local changes to '{change.decode()}' would be "
+                    f"Your local changes to '{change.decode(errors='replace')}' would be "
                     "overwritten. Please commit or stash before switching."
                 )
 
